@@ -444,6 +444,8 @@ pub struct ServerSnap {
 pub struct InflightSnap {
     pub next_tid: u32,
     pub total: usize,
+    /// capacity of the vector holding the requests (the lazy cleanup runs only when it is full)
+    pub capacity: usize,
     pub live: usize,
     pub timeout_ns: u64,
     pub estimated_rtt_ns: u64,
